@@ -794,6 +794,8 @@ def d2(ctx, prog, regs):
                 verdict = (True, 'values[..., self.words]')
             elif CALL in norm(e.value):
                 modified = e.value
+        elif isinstance(e, ast.Subscript) and not isinstance(e.slice, ast.Tuple) and norm(e.value) == CALL and index_kind(e.slice)[0] == 'same':
+            verdict = (False, 'selection applied on the first axis (the traces), not on the words axis')
         if modified is not None:
             ctx.fail('C07-D2', f'{call.key}::result', f'the words selection is applied to `{norm(modified)[:70]}`, not to the function output itself: the returned values are modified besides the words selection', call.where())
         elif verdict is None:
